@@ -231,7 +231,7 @@ def sc_live(top, sig):
 def run(ctx):
   setup_impl_path()
   quick = ctx.tier == 'quick'
-  ndes = 95 if quick else 1500
+  ndes = 95 if quick else 700
   coq_cases, coq_meta = [], []
   distinct_orders = 0
   for k in range(ndes):
